@@ -309,16 +309,6 @@ theorem ser28_eq (v : Stmt) : F28.ser v = Stmt.serW 2 v := by
 theorem ser28C_eq (v : Stmt) : F28C.ser v = Stmt.serW 0 v := by
   unfold F28C.ser Stmt.serW; cases v.seq <;> simp [padLeft_zero]
 
-theorem contains_false_of_ne (t : Text) (c : Char) (h : ∀ x ∈ t, x ≠ c) : t.contains c = false := by
-  induction t with
-  | nil => rfl
-  | cons a r ih =>
-    have ha : a ≠ c := h a (by simp)
-    have := ih (fun x hx => h x (by simp [hx]))
-    rw [List.contains_cons, this]
-    simp only [Bool.or_false, beq_eq_false_iff_ne, ne_eq]
-    exact fun e => ha e.symm
-
 theorem stmt_stable (seqLen seqMax w : Nat) (hs : 0 < seqLen) (hw : w ≤ seqLen) :
     Stable (Stmt.parse seqLen seqMax) (Stmt.serW w) := by
   intro s v h
